@@ -57,7 +57,11 @@ def generate(repo):
         count(src, rel, r"&received_buf\[2\.\.received_len\s*\+\s*2\]", 1)
         count(src, rel, r"response_buf\[0\.\.2\]\.copy_from_slice\(&u16::to_be_bytes\(response_len\s+as\s+u16\)\);", 1)
         count(src, rel, r"&response_buf\[0\.\.2\s*\+\s*response_len\]", 1)
-        count(src, rel, r"Response::None\s*=>\s*return\s+Ok\(\(\)\)", 1)
+        # a response-less request ends the connection through the draining close (never a bare drop of the socket)
+        count(src, rel, r"Response::None\s*=>\s*return\s+close_after_draining\(&mut socket, &mut received_buf\)", 1)
+        count(src, rel, r"Response::None\s*=>\s*return\s+Ok\(\(\)\)", 0)
+        count(src, rel, r"fn close_after_draining\(socket: &mut TcpStream, scratch_buf: &mut \[u8\]\)", 1)
+        count(src, rel, r"socket\.shutdown\((?:Shutdown::Write)?\)", 1)
         count(src, rel, r"if\s+n_read_this_time\s*==\s*0\s*\{", 1)
         out.append("")
     src = read(repo, "src/io/mod.rs")
@@ -66,5 +70,12 @@ def generate(repo):
         raise GenError("src/io/mod.rs: READ_MESSAGE_TIMEOUT is not `Duration::from_secs(<int>)`")
     out.append("(* src/io/mod.rs *)")
     out.append(f"Definition READ_MESSAGE_TIMEOUT_SECS : N := {coq_N(int(m[0]))}.")
+    out.append("")
+    src = strip_tests(read(repo, "src/server/mod.rs"))
+    m = re.findall(r"pub fn new\(catalog: Arc<C>\) -> Self \{\s*Self \{[^}]*?edns_udp_payload_size:\s*(\d+),", src, re.S)
+    if len(m) != 1:
+        raise GenError("src/server/mod.rs: Server::new no longer sets edns_udp_payload_size to a literal")
+    out.append("(* src/server/mod.rs: Server::new *)")
+    out.append(f"Definition DEFAULT_EDNS_UDP_PAYLOAD_SIZE : N := {coq_N(int(m[0]))}.")
     out.append("")
     return "\n".join(out)
